@@ -20,11 +20,12 @@ UNITS = {
     "map.of64": ("units/map.rs", "of64"),
     "feat.of64": ("units/feat.rs", "of64"),
     "feat.f64": ("units/feat.rs", "f64"),
+    "featp": ("units/featp.rs", "f64"),
 }
 
 PLAN = {
     "C01": dict(
-        verus=dict(quick=["feat.of64"], thorough=["feat.of64", "feat.f64"]),
+        verus=dict(quick=["feat.of64", "featp"], thorough=["feat.of64", "feat.f64", "featp"]),
         kani=dict(quick=[], thorough=[]),
         level="proof",
     ),
